@@ -108,7 +108,7 @@ def regen_facts():
     gen_dir = os.path.join(LEAN, "Asts", "Gen")
     os.makedirs(gen_dir, exist_ok=True)
     made = []
-    for what in ("Sites", "Crd", "Defaulters"):
+    for what in ("Sites", "Crd", "Defaulters", "Schema"):
         rc, out, err = run([HARNESS, "extract", what], env=dict(GOENV, VERIF_REPO=REPO), timeout=300)
         if rc != 0:
             raise BuildError("fact extraction " + what, (out + err).decode(errors="replace"))
